@@ -182,6 +182,48 @@ fn schedules(g1: &Game, g2: &Game) -> Vec<Schedule> {
                 Step::Out("bestmove".into(), 8_000),
             ],
         });
+        // ---- a new game announced while the search runs, and right behind the stop -----------
+        v.push(Schedule {
+            name: format!("ucinewgame-during-search[{go}]"),
+            sched: String::new(),
+            held_ms: 0,
+            steps: vec![
+                Step::Send(p1.clone()),
+                Step::Send(go.clone()),
+                Step::Evt("search.started#1".into()),
+                Step::Send("ucinewgame".into()),
+                Step::Sleep(20),
+                Step::Send("stop".into()),
+                Step::Out("bestmove".into(), ALLOWANCE_MS + 10_000),
+                Step::Send("isready".into()),
+                Step::Out("readyok".into(), 3_000),
+                Step::Send(p2.clone()),
+                Step::Send("go depth 2".into()),
+                Step::Out("bestmove".into(), 8_000),
+                Step::Sleep(200),
+            ],
+        });
+        v.push(Schedule {
+            // the stopped search is held just before it prints its answer; stop, ucinewgame, the
+            // next position and the next go arrive back to back meanwhile
+            name: format!("stop-ucinewgame-position-go-pipelined[{go}]"),
+            sched: hold("search.pre_bestmove@1"),
+            held_ms: HOLD_MS,
+            steps: vec![
+                Step::Send(p1.clone()),
+                Step::Send(go.clone()),
+                Step::Evt("search.started#1".into()),
+                Step::Send("stop".into()),
+                Step::Send("ucinewgame".into()),
+                Step::Send(p2.clone()),
+                Step::Send("go depth 2".into()),
+                Step::Out("bestmove".into(), HOLD_MS + ALLOWANCE_MS + 10_000),
+                Step::Out("bestmove".into(), 8_000),
+                Step::Send("isready".into()),
+                Step::Out("readyok".into(), 3_000),
+                Step::Sleep(200),
+            ],
+        });
         // ---- stop storm ----------------------------------------------------------------
         v.push(Schedule {
             name: format!("stop-storm[{go}]"),
@@ -345,13 +387,21 @@ fn check_history(prop_name: &str, sched: &Schedule, e: &Engine, job: usize, miss
                         }
                     }
                     Some("isready") => isready += 1,
+                    // a new game: the session position is the start position again
+                    Some("ucinewgame") => pos = Pos::startpos(),
                     _ => {}
                 }
             }
             Src::Out => {
                 if ev.line.starts_with("bestmove") {
                     let mv = ev.line.split_whitespace().nth(1).unwrap_or("").to_string();
-                    match gos.last_mut() {
+                    // searches are answered in the order in which they were asked for (a GUI may
+                    // have sent the next go before this answer arrived): the line belongs to the
+                    // earliest go still waiting, or, if none is waiting, to the latest one (surplus)
+                    // (a schedule that sends go while a search runs gets refusals: the latest go there)
+                    let fifo = !sched.name.starts_with("repeated-go-while-searching");
+                    let at = gos.iter().position(|g| fifo && g.bestmoves.is_empty()).unwrap_or(gos.len().saturating_sub(1));
+                    match gos.get_mut(at) {
                         Some(g) => g.bestmoves.push((ev.t_us, mv)),
                         None => out::violation(prop_name, "bestmove-without-go", format!("[{}] bestmove line without any go", sched.name), replay.clone()),
                     }
@@ -663,6 +713,7 @@ fn stress_session(ctx: &Ctx, idx: usize, seeds: &[String], cycles: u64) {
         held_ms: 0,
     };
     let mut prev: Option<Game> = None;
+    let mut owed = 0u32;
     for _ in 0..cycles {
         // half of the cycles continue the game of the previous cycle by a move or two (so the new
         // root was already visited by the previous search and sits in the cache), the others start afresh
@@ -703,8 +754,14 @@ fn stress_session(ctx: &Ctx, idx: usize, seeds: &[String], cycles: u64) {
             2 => e.settle(rng.below(4)),
             _ => e.settle(rng.below(30)),
         }
+        if rng.chance(1, 8) {
+            // a new game is announced while the search runs (its answer is still owed)
+            e.send("ucinewgame");
+            out::count("C10.stress_ucinewgame_during_search", 1);
+        }
         let mut want_ready = false;
-        if needs_stop || rng.chance(1, 2) {
+        let stopped = needs_stop || rng.chance(1, 2);
+        if stopped {
             if rng.chance(1, 3) {
                 // both commands in a single write: the answers of the two threads collide on stdout
                 e.send_raw(b"stop\nisready\n");
@@ -715,13 +772,29 @@ fn stress_session(ctx: &Ctx, idx: usize, seeds: &[String], cycles: u64) {
             }
         }
         let ready_from = out_from;
-        match e.wait_since(out_from, ALLOWANCE_MS + 6_000, |ev| ev.src == Src::Out && ev.line.starts_with("bestmove")) {
-            Some(i) => out_from = i + 1,
-            None => break,
+        if stopped && !want_ready && rng.chance(1, 4) {
+            // the GUI does not wait for the answer: the next cycle's commands follow at once
+            owed += 1;
+            out::count("C10.stress_cycles_pipelined", 1);
+            continue;
+        }
+        let mut lost = false;
+        for _ in 0..=owed {
+            match e.wait_since(out_from, ALLOWANCE_MS + 6_000, |ev| ev.src == Src::Out && ev.line.starts_with("bestmove")) {
+                Some(i) => out_from = i + 1,
+                None => lost = true,
+            }
+        }
+        owed = 0;
+        if lost {
+            break;
         }
         if want_ready && e.wait_since(ready_from, 3_000, |ev| ev.src == Src::Out && ev.line == "readyok").is_none() {
             break;
         }
+    }
+    for _ in 0..owed {
+        let _ = e.wait_since(out_from, ALLOWANCE_MS + 6_000, |ev| ev.src == Src::Out && ev.line.starts_with("bestmove")).map(|i| out_from = i + 1);
     }
     e.settle(100);
     if let Some((k, lat)) = check_history("C10", &sched, &e, 100_000 + idx, false) {
@@ -794,6 +867,30 @@ pub fn run_c10(ctx: &Ctx) -> Result<(), String> {
         };
         let g2 = random_game(&mut rng, &seeds, 16, true);
         all.extend(schedules(&g1, &g2));
+    }
+    // positions whose capture search alone runs for seconds (many queens attacking each other):
+    // a stop that waits for "the current iteration" or "the current capture search" to finish is
+    // only slow there. Schedules that wait for the search to end by itself are left out.
+    let heavy = corpus::queen_rich_seeds();
+    for k in 0..(if thorough { heavy.len() } else { heavy.len().min(2) }) {
+        let fen = &heavy[(k + ctx.seed as usize) % heavy.len()];
+        let Ok(p) = Pos::from_fen(fen) else { continue };
+        let g1 = Game {
+            start_fen: fen.clone(),
+            is_startpos: false,
+            moves: vec![],
+            positions: vec![p],
+        };
+        let g2 = random_game(&mut rng, &seeds, 16, true);
+        let keep = ["stop-a-enter", "stop-b-started", "stop-d-mid", "stop-immediately", "main-held-after-spawn", "ucinewgame-during-search"];
+        for mut sc in schedules(&g1, &g2) {
+            let kind = sc.name.split('[').next().unwrap_or("").to_string();
+            if keep.contains(&kind.as_str()) {
+                sc.name = sc.name.replacen('[', "[queen-rich ", 1);
+                all.push(sc);
+                out::count("C10.forced_schedules_on_queen_rich_positions", 1);
+            }
+        }
     }
     out::count("C10.forced_schedules", all.len() as u64);
     let next = std::sync::atomic::AtomicUsize::new(0);
